@@ -15,14 +15,24 @@ CLAIMED = {
  "C05": dict(text="Deductive: functional postconditions (documented effect, error classes, state unchanged on rejection) of the undirected mutators, discharged by z3; remaining mutators listed as not covered in the evidence.",
              ref="4/C05", technique="contract-based deductive verification (pyvc + z3), counter-models replayed natively"),
 }
+CLAIMED.update({
+ "C02": dict(text="Deductive: DInv (tail<->out-membership, head<->in-membership, closed keys, one attribute record) plus Fresh is a pre/postcondition of every DiHypergraph mutator on every normal and exceptional exit, discharged by z3 for symbolic state and arguments.",
+             ref="4/C02", technique="contract-based deductive verification (pyvc + z3), counter-models replayed natively"),
+ "C08": dict(text="Frame clause `modifies nothing on the network argument` for every public callable (enumerated from the ASTs on every run), discharged modularly by framecheck against callee summaries; in_place flags constant-folded to False; results of view accessors proved fresh. Native snapshot stand-in beside it, not counted.",
+             ref="4/C08", technique="contract-based frame checking (modular syntactic discharge of frame/ownership obligations) + bounded native snapshot stand-in", category="proof"),
+ "C17": dict(text="Effect frame on the global random generators: every read is dominated by seeding with the function's own seed and every RNG-using callee receives the seed; discharged syntactically per function. Determinism then follows from assumed library contracts; native double-run stand-in beside it.",
+             ref="4/C17", technique="effect-frame contracts on RNG state (rngcheck) + native double-run replay", category="other"),
+ "C18": dict(text="Deductive: freeze() shadows every direct structural mutator (set recomputed from the ASTs each run); indirect mutators raise XGIError or leave the tables unchanged on a frozen instance. Coverage of the indirect mutators and of subhypergraph/copy is partial (see evidence).",
+             ref="4/C18", technique="contract-based deductive verification (pyvc + z3) over an AST-derived mutator set"),
+})
 NA_REASON = {
  "C20": "no contract within reach: the observables are matplotlib collections and networkx float layouts (external libraries, floating point); see DESIGN 7",
 }
 checks = []
-for pid, d in CLAIMED.items():
+for pid, d in sorted(CLAIMED.items()):
     checks.append(dict(property_id=pid, quick_cmd="./check %s --tier quick" % pid, thorough_cmd="./check %s --tier thorough" % pid,
                        evidence_file="/verif/evidence/%s.json" % pid, replay_cmd_template="./check %s --replay {path}" % pid,
-                       engine="pyvc", level_claimed=dict(category="proof", text=d["text"], design_ref=d["ref"]),
+                       engine="pyvc", level_claimed=dict(category=d.get("category", "proof"), text=d["text"], design_ref=d["ref"]),
                        level_note=PROOF_NOTE, technique=d["technique"]))
 na = [dict(property_id=p["id"], reason=NA_REASON.get(p["id"], "check not built yet (build in progress, see DESIGN 10 for the order)"))
       for p in props if p["id"] not in CLAIMED]
